@@ -50,7 +50,11 @@ func (v *legacyVisitor) VisitFunctionCall(ctx *gen.FunctionCallContext) any {
 		params = v.Visit(ctx.Parameters()).([]string)
 	}
 
-	rewrittenFuncCall, _ := migrateFunctionCall(functionName, params)
+	rewrittenFuncCall, err := migrateFunctionCall(functionName, params)
+	if err != nil {
+		// we know this function but not with these params, so like an unknown function, leave it as it is
+		rewrittenFuncCall, _ = renderCall(functionName, params)
+	}
 	return rewrittenFuncCall
 }
 
